@@ -25,7 +25,7 @@ def harnesses(tier, seed):
                     if scaling == 'none' and not ds:
                         continue
                     jobs.append(dict(fn='h_viol', params=dict(n=n, bform=bform, scaling=scaling, driver_scaling=ds), max_paths=50000))
-    for ds in ((True,) if tier == 'quick' else (True, False)):
+    for ds in (True, False):
         jobs.append(dict(fn='h_con_viol_vector', params=dict(driver_scaling=ds)))
     return jobs
 
